@@ -798,7 +798,15 @@ def gen_figure_spec(rng, *, nfig=(1, 6), rich=0.3, color_pool=None, half_points=
     return spec
 
 
-def with_prior(rng, spec):
+def maybe_prior(rng, spec, p=0.08):
+    """with_prior for a share p of the table documents of a workload (the explicit default header excepted: the
+    other checks' expectations know "default", "none" and headers with labels)"""
+    if spec.get("kind", "table") == "table" and rng.random() < p:
+        with_prior(rng, spec, explicit_default_header=False)
+    return spec
+
+
+def with_prior(rng, spec, explicit_default_header=True):
     """the document is not the first one its components were used for: attaches "prior" documents (near twins
     of the spec: a column less or more, fewer rows, other texts, the same table as a section of a
     multi-section document with nested headers) which spec.build constructs and encodes first FROM ONE POOL OF
@@ -806,7 +814,7 @@ def with_prior(rng, spec):
     import copy
     if spec.get("kind", "table") != "table" or spec.get("prior"):
         return spec
-    if spec.get("colheader", "default") == "default" and rng.random() < 0.5:
+    if explicit_default_header and spec.get("colheader", "default") == "default" and rng.random() < 0.5:
         # an explicitly passed default header: rtf_column_header=[RTFColumnHeader()]
         spec["colheader"] = [{}]
     priors = []
